@@ -84,7 +84,18 @@ def copy_go_files(src, dst):
         if f.endswith(".go"):
             shutil.copy(os.path.join(src, f), os.path.join(dst, f))
 
-def build_scratch(prop, verbose=True):
+SENSITIVITY = {
+    # property -> (description, [(file, old, new)]): a deliberate break applied to the SCRATCH copy only, to show
+    # on every thorough run that the check can still fail. Skipped (and said so) if the anchor text is gone.
+    "C10": ("remove the SchemaCache mutex again (re-opens defect 1 of DESIGN §10.1)",
+            [("lib/j5schema/schema_cache.go", "\tsc.mu.Lock()\n\tdefer sc.mu.Unlock()\n", "")]),
+    "C14": ("remove the key sort in walkOptionMap again (re-opens defect of DESIGN §10.1)",
+            [("internal/j5s/protoprint/optionreflect/walk.go",
+              "\tsort.Slice(entries, func(i, j int) bool {\n\t\treturn mapKeyLess(entries[i].key, entries[j].key)\n\t})\n",
+              "\tvar _ = sort.Slice\n")]),
+}
+
+def build_scratch(prop, verbose=True, mutate=None):
     """Copy /repo's working tree, instrument it, build the harness. Returns (binary, report, scratchdir, build_seconds)."""
     cfg = PROPS[prop]
     t0 = time.time()
@@ -96,6 +107,15 @@ def build_scratch(prop, verbose=True):
     r = run(["rsync", "-a", "--exclude", ".git", REPO + "/", tree + "/"], capture_output=True, text=True)
     if r.returncode != 0:
         trouble("rsync of %s failed: %s" % (REPO, r.stderr))
+    if mutate:
+        for rel, old, new in mutate:
+            path = os.path.join(tree, rel)
+            if not os.path.exists(path):
+                return None
+            src = open(path).read()
+            if old not in src:
+                return None
+            open(path, "w").write(src.replace(old, new, 1))
     copy_go_files(os.path.join(VERIF, "sim", "simrt"), os.path.join(tree, "internal", "zzverif", "simrt"))
     for src, dst in cfg["extra_pkgs"]:
         copy_go_files(os.path.join(VERIF, src), os.path.join(tree, dst))
@@ -289,6 +309,26 @@ def history_check(binary, seed, tier, tcfg, results, outdir):
     info = dict(programs_compared=len(seen), digests_compared=compared, extra_processes=2, sample=len(sample))
     return viol, info
 
+def sensitivity(prop, seed, extra_args):
+    """Break the property on purpose in a scratch copy and require the check to notice."""
+    desc, edits = SENSITIVITY[prop]
+    t0 = time.time()
+    built = build_scratch(prop, mutate=edits)
+    if built is None:
+        return dict(mutation=desc, applied=False, note="anchor text not found in the current tree; self-check skipped")
+    binary, report, d, build_s = built
+    outdir = os.path.join(d, "out")
+    os.makedirs(outdir)
+    per_env = None
+    if PROPS[prop]["race"]:
+        per_env = lambda w: {"GORACE": "log_path=%s halt_on_error=0 exitcode=0 history_size=4" % os.path.join(outdir, "race.w%d" % w)}
+    procs = spawn_workers(binary, prop, "quick", seed, 8, 20, [a for a in extra_args if a != "-deep"], outdir, per_env)
+    results, crashed = collect(procs, time.time() + 300)
+    keys = sorted({finding_key(v) for r in results for v in (r.get("violations") or [])})
+    shutil.rmtree(d, ignore_errors=True)
+    return dict(mutation=desc, applied=True, detected=bool(keys), violation_keys=keys[:8], workers=8, budget_s=20,
+                seconds=round(time.time() - t0, 1))
+
 def write_evidence(prop, tier, seed, level, coverage, assumptions, wall, nviol):
     os.makedirs(os.path.join(VERIF, "evidence"), exist_ok=True)
     ev = dict(property_id=prop, tier=tier, seed=seed, level=level, coverage=coverage, assumptions=assumptions,
@@ -341,6 +381,11 @@ def check(prop, tier):
         sigs.update(r.get("nontrivial_sigs") or [])
         violations += r.get("violations") or []
         samples += (r.get("samples") or [])[:1]
+    site_bits = [0] * 64
+    for r in results:
+        for k, b in enumerate(r.get("yield_site_bits") or []):
+            site_bits[k] |= b
+    yield_sites_hit = sum(bin(b).count("1") for b in site_bits)
     wall = time.time() - t0
     run_wall = max((r.get("wall_s", 0) for r in results), default=0)
 
@@ -348,6 +393,10 @@ def check(prop, tier):
     if cfg.get("history_check"):
         hv, history_info = history_check(binary, seed, tier, tcfg, results, outdir)
         violations += hv
+
+    sens = None
+    if tier == "thorough" or os.environ.get("VERIF_SENSITIVITY"):
+        sens = sensitivity(prop, seed, tcfg["args"])
 
     findings, fixed = load_known_findings(prop)
     known = dict(findings)
@@ -368,7 +417,7 @@ def check(prop, tier):
         h = hashlib.sha256(k.encode()).hexdigest()[:10]
         path = os.path.join(VERIF, "replays", "%s-%s-seed%d.json" % (prop, h, seed))
         json.dump(v, open(path, "w"), indent=1)
-        if cfg.get("minimise_mode") and not v.get("minimised") and len(new_viol) + len(unreproduced) < 4:
+        if cfg.get("minimise_mode") and not v.get("minimised") and len(new_viol) + len(unreproduced) < 3:
             menv = goenv()
             r = run([binary, "-mode", "minimise", "-file", path, "-out", path + ".min"], env=menv, capture_output=True, text=True, cwd=outdir)
             if r.returncode == 0 and os.path.exists(path + ".min"):
@@ -398,11 +447,14 @@ def check(prop, tier):
         probes=stats.get("probes", {}),
         stats={k: v for k, v in stats.items() if k not in ("faults", "probes")},
         instrumentation=report["counts"],
+        yield_sites_executed_approx=(yield_sites_hit if cfg["race"] else None),
+        yield_sites_inserted=sum(v for k, v in report["counts"].items() if k.startswith("yield_") or k in ("lock", "unlock", "once")),
         uncontrolled_sites=report.get("uncontrolled") or [],
         unmodelled_sync=report.get("unmodelled") or [],
         components=COMPONENTS[prop],
         determinism_selftest=selftest,
         cross_process_history_check=history_info,
+        sensitivity_selfcheck=sens,
         build_s=round(build_s, 1),
         known_findings_listed=[k for k, _ in findings],
         fixed_findings_listed=[k for k, _ in fixed],
@@ -415,6 +467,8 @@ def check(prop, tier):
         coverage["evaluations"], coverage["distinct_nontrivial"], coverage["runs_per_hour"], json.dumps(coverage["fault_kinds"], sort_keys=True)), flush=True)
     if not selftest.get("ok"):
         trouble("determinism self-test failed: %s" % json.dumps(selftest))
+    if sens and sens.get("applied") and not sens.get("detected"):
+        trouble("sensitivity self-check: the deliberate break (%s) was NOT detected" % sens["mutation"])
     anomalies = int((stats.get("probes") or {}).get("sequential_anomaly_not_reproduced_in_fresh_process", 0))
     if anomalies and not new_viol:
         trouble("%d sequential anomalies (a call returned something else than when run alone) were observed inside worker processes "
@@ -494,6 +548,10 @@ def main(argv):
         return replay(argv[1])
     if len(argv) >= 2 and argv[0] == "--selftest":
         return selftest(argv[1])
+    if len(argv) >= 2 and argv[0] == "--sensitivity":
+        r = sensitivity(argv[1], int(os.environ.get("VERIF_SEED", "1")), [])
+        print(json.dumps(r, indent=1))
+        return 0 if (not r.get("applied") or r.get("detected")) else 2
     if len(argv) >= 1 and argv[0] == "--build-only":
         for p in argv[1:] or list(PROPS):
             b, rep, d, s = build_scratch(p)
